@@ -12,7 +12,7 @@ RULE = ("all 237 group settings, by number+setting and by name; positions from t
         "(x,-x,z), (x,y,z), (0,0,z), (1/3,2/3,z), (x,x,x), (x,0,0) with generic x; coordinates passed as Python floats (thirds carry "
         "rounding of both signs), shifted by integer vectors, as list / tuple / array; non-trivial = position or setting with a "
         "non-trivial site symmetry or centring (oracle multiplicity < nsymop or nsymop > 1); distinct = distinct (setting, position)")
-ASSUMPTIONS = ["the orbit is counted exactly with Fractions over the operations read from the live sg.sg instance, which is itself under the C04 class invariant in this run",
+ASSUMPTIONS = ["the orbit is counted exactly with Fractions over the operations read straight from the xfab.sglib class of the requested number/setting (not through xfab.sg.sg); every sg.sg instance the code under test creates is under the C04 class invariant in this run",
                "float coordinates are identified with the rational they were generated from (|float - rational| <= 1e-15)"]
 FLOORS = {"post:structure.multiplicity": 2000, "invariant:sg.sg group axioms": 237}
 WORKERS = {"quick": 4, "thorough": 16}
@@ -25,7 +25,7 @@ _ops_cache = {}
 def setting_ops(sgmod, no, cc):
     key = (no, cc)
     if key not in _ops_cache:
-        o = sgmod.sg(sgno=no, cell_choice=cc)
+        o = c04.Table(no, cc)          # straight from xfab.sglib, not through xfab.sg.sg
         ops, problems = sx.ops_of(o.rot, o.trans)
         _ops_cache[key] = (ops, o.nsymop, o.name, problems)
     return _ops_cache[key]
@@ -46,9 +46,11 @@ def setup(ctx):
                 mon.config("contract:position not a small rational")
                 return
             if sgname is not None:
-                o = sgmod.sg(sgname=sgname, cell_choice=cell_choice)
+                o = c04.table_by_name(sgname)
+                if cell_choice == "rhombohedral" and o.no in c04.R_GROUPS:
+                    o = c04.Table(o.no, "rhombohedral")
             else:
-                o = sgmod.sg(sgno=sgno, cell_choice=cell_choice)
+                o = c04.Table(sgno, cell_choice)
             ops, problems = sx.ops_of(o.rot, o.trans)
         except Exception as exc:
             mon.config("contract:oracle unavailable (%s)" % type(exc).__name__)
@@ -74,6 +76,11 @@ def workload(ctx):
     rng = ctx.rng(1)
     settings = _settings()
     idx = 0
+    for k, no in enumerate(c04.R_GROUPS):
+        if ctx.mine(k):
+            yield "r_both", {"no": no, "g": [int(v) for v in rng.integers(0, 5, 3)], "reverse": bool((k + ctx.seed) % 2)}
+        else:
+            rng.integers(0, 5, 3)
     if ctx.thorough():
         for (no, cc) in settings:
             for i, a in enumerate(GRID):
@@ -152,4 +159,21 @@ def case_grid_plane(ctx, p):
     ctx.mon.extra["complete_grid_planes"] = ctx.mon.extra.get("complete_grid_planes", 0) + 1
 
 
-CASES = {"setting": case_setting, "grid_plane": case_grid_plane}
+def case_r_both(ctx, p):
+    """histories: the same R group asked for in both settings within one process, in both orders, by number and by name"""
+    no = p["no"]
+    x, y, z = (c15_generic(i) for i in p["g"])
+    seq = [("standard", False), ("rhombohedral", False), ("standard", True), ("rhombohedral", True)]
+    if p["reverse"]:
+        seq = seq[::-1]
+    for cc, by_name in seq + seq[:2]:
+        _call(ctx, (x, y, z), no, cc, by_name=by_name)
+        _call(ctx, (Fraction(0), Fraction(0), z), no, cc, by_name=by_name)
+    ctx.mon.config("history:R group in both settings")
+
+
+def c15_generic(i):
+    return GENERIC[i % len(GENERIC)]
+
+
+CASES = {"setting": case_setting, "grid_plane": case_grid_plane, "r_both": case_r_both}
